@@ -27,26 +27,27 @@ func init() {
 }
 
 type WinCfg struct {
-	Role      int     `json:"role"` // 0: stack sends, 1: stack receives
-	V6        bool    `json:"v6"`
-	MTU       int     `json:"mtu"`
-	PeerMSS   int     `json:"peer_mss"` // -1: no MSS option
-	PeerWS    int     `json:"peer_ws"`  // -1: no window scale option
-	TS        bool    `json:"ts"`
-	SACK      bool    `json:"sack"`
-	CC        string  `json:"cc"`
-	RcvBuf    int     `json:"rcvbuf"`
-	SndBuf    int     `json:"sndbuf"`
-	Passive   bool    `json:"passive"` // the peer opens the connection
-	MaxSteps  int     `json:"max_steps"`
-	YieldP    float64 `json:"yield_p"`
-	ISSPlace  int     `json:"iss_place"` // C14: 0 none, 1 stack just below 2^31, 2 stack just below 2^32, 3/4 peer likewise
-	ISSBack   int     `json:"iss_back"`
-	Cookie    bool    `json:"syn_cookies,omitempty"`       // passive open through the SYN-cookie path (listener in flood mode)
-	DupSA     bool    `json:"syn_ack_repeated,omitempty"`  // active open: the peer's SYN-ACK arrives a second time (it missed the ACK)
-	SAWin     int     `json:"syn_ack_window,omitempty"`    // active open: the window the peer's SYN-ACK offers (0 = 65535)
-	WinJitter bool    `json:"ack_window_jitter,omitempty"` // recovery scenario: every advancing ACK of the peer changes the advertised window a little
-	ISSMid    bool    `json:"iss_mid_space,omitempty"`     // the neutral twin of a C14 run: same placement, counted back from mid-space values
+	Role        int     `json:"role"` // 0: stack sends, 1: stack receives
+	V6          bool    `json:"v6"`
+	MTU         int     `json:"mtu"`
+	PeerMSS     int     `json:"peer_mss"` // -1: no MSS option
+	PeerWS      int     `json:"peer_ws"`  // -1: no window scale option
+	TS          bool    `json:"ts"`
+	SACK        bool    `json:"sack"`
+	CC          string  `json:"cc"`
+	RcvBuf      int     `json:"rcvbuf"`
+	SndBuf      int     `json:"sndbuf"`
+	Passive     bool    `json:"passive"` // the peer opens the connection
+	MaxSteps    int     `json:"max_steps"`
+	YieldP      float64 `json:"yield_p"`
+	ISSPlace    int     `json:"iss_place"` // C14: 0 none, 1 stack just below 2^31, 2 stack just below 2^32, 3/4 peer likewise
+	ISSBack     int     `json:"iss_back"`
+	Cookie      bool    `json:"syn_cookies,omitempty"`        // passive open through the SYN-cookie path (listener in flood mode)
+	DupSA       bool    `json:"syn_ack_repeated,omitempty"`   // active open: the peer's SYN-ACK arrives a second time (it missed the ACK)
+	SAWin       int     `json:"syn_ack_window,omitempty"`     // active open: the window the peer's SYN-ACK offers (0 = 65535)
+	SendBlocked bool    `json:"stack_send_blocked,omitempty"` // receiver role: the peer's window is 0 throughout and the stack's application has data queued that cannot leave
+	WinJitter   bool    `json:"ack_window_jitter,omitempty"`  // recovery scenario: every advancing ACK of the peer changes the advertised window a little
+	ISSMid      bool    `json:"iss_mid_space,omitempty"`      // the neutral twin of a C14 run: same placement, counted back from mid-space values
 }
 
 func neutralWin(raw json.RawMessage) json.RawMessage {
@@ -79,6 +80,7 @@ func genWinCfg(rng *sim.Rand, tier string) WinCfg {
 	}
 	c.Cookie = c.Passive && rng.Chance(0.3)
 	c.DupSA = !c.Passive && rng.Chance(0.3)
+	c.SendBlocked = c.Role == 1 && rng.Chance(0.25)
 	if !c.Passive && rng.Chance(0.4) {
 		c.SAWin = []int{100, 1000, 3000, 20000}[rng.Intn(4)]
 	}
@@ -527,6 +529,14 @@ func (w *winWorld) readOne() bool {
 	return true
 }
 
+// pwin is the window the peer advertises on its data segments in the receiver role.
+func (w *winWorld) pwin() uint16 {
+	if w.cfg.SendBlocked {
+		return 0
+	}
+	return 65535
+}
+
 func (w *winWorld) receiverStep(s Step) {
 	p := w.p
 	mk := func(off int64, n int, bogus bool) []byte {
@@ -564,7 +574,7 @@ func (w *winWorld) receiverStep(s Step) {
 			if int64(n) > room {
 				n = int(room)
 			}
-			p.Send(codec.FlagACK|codec.FlagPSH, p.ISS+1+uint32(w.sent), p.RcvNxt, 65535, nil, mk(w.sent, n, false))
+			p.Send(codec.FlagACK|codec.FlagPSH, p.ISS+1+uint32(w.sent), p.RcvNxt, w.pwin(), nil, mk(w.sent, n, false))
 			start := w.sent
 			w.sent += int64(n)
 			if w.sent > w.maxSent {
@@ -586,8 +596,14 @@ func (w *winWorld) receiverStep(s Step) {
 				return
 			}
 			// beyond the promised edge: the 16-bit field shows it rounded down by up to 2^scale-1
-			off := w.lastEdge + int64(1)<<uint(w.sws) + int64(s.C%3000)
-			p.Send(codec.FlagACK|codec.FlagPSH, p.ISS+1+uint32(off), p.RcvNxt, 65535, nil, mk(off, n, true))
+			// (the first byte that is certainly outside is the one 2^scale-1 behind the visible edge; a quarter of
+			// these segments begin exactly there - with scale 0 exactly at the edge)
+			off := w.lastEdge + int64(1)<<uint(w.sws) - 1 + int64(s.C%3000)
+			if s.C%4 == 0 {
+				off = w.lastEdge + int64(1)<<uint(w.sws) - 1
+				w.Probes["segments_beginning_exactly_at_the_right_edge"]++
+			}
+			p.Send(codec.FlagACK|codec.FlagPSH, p.ISS+1+uint32(off), p.RcvNxt, w.pwin(), nil, mk(off, n, true))
 			for i := 0; i < n; i++ {
 				w.bogus[off+int64(i)] = true
 			}
@@ -603,7 +619,7 @@ func (w *winWorld) receiverStep(s Step) {
 			if int64(n) > w.sent-off {
 				n = int(w.sent - off)
 			}
-			p.Send(codec.FlagACK|codec.FlagPSH, p.ISS+1+uint32(off), p.RcvNxt, 65535, nil, mk(off, n, false))
+			p.Send(codec.FlagACK|codec.FlagPSH, p.ISS+1+uint32(off), p.RcvNxt, w.pwin(), nil, mk(off, n, false))
 		case 4: // in order, starting inside the window and reaching beyond its right edge (true content: a receiver may keep more than it promised; only data wholly outside the window is forbidden)
 			if !w.haveEdge || room <= 0 || room > 1400 {
 				return
@@ -620,7 +636,7 @@ func (w *winWorld) receiverStep(s Step) {
 			start := w.sent - back
 			seg := mk(start, int(back)+in+over, false)
 			edge0 := w.lastEdge
-			p.Send(codec.FlagACK|codec.FlagPSH, p.ISS+1+uint32(start), p.RcvNxt, 65535, nil, seg)
+			p.Send(codec.FlagACK|codec.FlagPSH, p.ISS+1+uint32(start), p.RcvNxt, w.pwin(), nil, seg)
 			if e := w.sent + int64(in+over); e > w.maxSent {
 				w.maxSent = e
 			}
@@ -640,7 +656,7 @@ func (w *winWorld) receiverStep(s Step) {
 				return
 			}
 			gap := 1 + int64(s.C)%(room-int64(n))
-			p.Send(codec.FlagACK|codec.FlagPSH, p.ISS+1+uint32(w.sent+gap), p.RcvNxt, 65535, nil, mk(w.sent+gap, n, false))
+			p.Send(codec.FlagACK|codec.FlagPSH, p.ISS+1+uint32(w.sent+gap), p.RcvNxt, w.pwin(), nil, mk(w.sent+gap, n, false))
 			if e := w.sent + gap + int64(n); e > w.maxSent {
 				w.maxSent = e
 			}
@@ -684,7 +700,7 @@ func (w *winWorld) receiverStep(s Step) {
 			if int64(k) > room {
 				k = int(room)
 			}
-			p.Send(codec.FlagACK|codec.FlagPSH, p.ISS+1+uint32(w.sent), p.RcvNxt, 65535, nil, mk(w.sent, k, false))
+			p.Send(codec.FlagACK|codec.FlagPSH, p.ISS+1+uint32(w.sent), p.RcvNxt, w.pwin(), nil, mk(w.sent, k, false))
 			w.sent += int64(k)
 			if w.sent > w.maxSent {
 				w.maxSent = w.sent
@@ -748,6 +764,14 @@ func (scWindow) Run(t *testing.T, prop string, seed uint64, cfgRaw json.RawMessa
 			w.Probes["establish_failed"]++
 			finish(w.World, o)
 			return
+		}
+		if cfg.Role == 1 && cfg.SendBlocked {
+			// the peer closes its window for good and the stack's application queues data that cannot leave:
+			// from now on both directions are flow-controlled at once
+			w.p.Send(codec.FlagACK, w.p.SndNxt, w.p.RcvNxt, 0, nil, nil)
+			w.ep.Write(tcpip.SlicePayload(make([]byte, 600)), tcpip.WriteOptions{})
+			w.Settle()
+			w.Probes["stack_send_blocked_by_peer_window"]++
 		}
 		if cfg.Role == 1 {
 			w.observeReceiver()
